@@ -149,7 +149,9 @@ pub fn guarded(exec: &dyn Fn(&Op) -> String, op: &Op) -> String {
 /// Mutate one argument.  If the argument is valid UTF-8 the result stays valid UTF-8 with
 /// probability ~3/4 (so that `&str` entry points are still reached), otherwise raw bytes.
 pub fn mutate_arg(rng: &mut Rng, a: &[u8]) -> Vec<u8> {
-    let specials: [&[u8]; 48] = [
+    let specials: [&[u8]; 64] = [
+        b"\xef\xbb\xbf", b".tgz", b".tar.gz", b"00000000000000000000", b"%F", b"%D", b"DEPENDS=", b"Size", b"SIZE", b"nb0", b"NB1",
+        b"//", b"/./", b":", b"bytes", b"\n ", 
         b"", b"\0", b"\n", b"\r\n", b" ", b"\t", b"-", b"=", b":", b"/", b"..", b"{", b"}", b",", b"*", b"?", b"[", b"]",
         b"<", b">", b">=", b"99999999999999999999", b"nb", b"@",
         b"^", b"$", b"!", b"\\", b"#", b"(", b")", b"+", b"~", b"\x0b", b"\x0c", b"\r", b"pre", b"rc", b"alpha", b"pl",
@@ -165,7 +167,58 @@ pub fn mutate_arg(rng: &mut Rng, a: &[u8]) -> Vec<u8> {
     };
     let pick_cut = |rng: &mut Rng| -> usize { cuts[rng.below(cuts.len())] };
     let mut out = a.to_vec();
-    match rng.below(12) {
+    match rng.below(16) {
+        12 => {
+            // something at the very start or the very end (prefix / suffix handling)
+            let ins: &[u8] = *rng.pick::<&[u8]>(&[b"\xef\xbb\xbf", b" ", b"\n", b"\r\n", b"\t", b".tgz", b"/", b":", b"\0", b"-", b"\xc2\xa0", b"\xe3\x80\x80", b"@", b"="]);
+            if rng.chance(1, 2) {
+                out.splice(0..0, ins.iter().cloned());
+            } else {
+                out.extend(ins);
+            }
+        }
+        13 => {
+            // flip the case of one run of ASCII letters (keywords are matched exactly or not)
+            let c = pick_cut(rng);
+            let mut i = c;
+            while i < out.len() && !out[i].is_ascii_alphabetic() {
+                i += 1;
+            }
+            let upper = rng.chance(1, 2);
+            let one = rng.chance(1, 3);
+            while i < out.len() && out[i].is_ascii_alphabetic() {
+                out[i] = if upper { out[i].to_ascii_uppercase() } else { out[i].to_ascii_lowercase() };
+                i += 1;
+                if one {
+                    break;
+                }
+            }
+        }
+        14 => {
+            // leading zeros in front of a digit run: the value is unchanged, the length is not
+            let c = pick_cut(rng);
+            let mut i = c;
+            while i < out.len() && !out[i].is_ascii_digit() {
+                i += 1;
+            }
+            if i < out.len() {
+                let n = *rng.pick(&[1usize, 2, 18, 19, 20, 40]);
+                out.splice(i..i, std::iter::repeat(b'0').take(n));
+            }
+        }
+        15 => {
+            // repeat one "word" (up to the next blank / separator) right after itself
+            let c = pick_cut(rng);
+            let mut j = c;
+            while j < out.len() && !b" \t\n=:,/-".contains(&out[j]) {
+                j += 1;
+            }
+            if keep_utf8 && std::str::from_utf8(&out[c..j]).is_err() {
+                j = c;
+            }
+            let w = out[c..j].to_vec();
+            out.splice(j..j, w);
+        }
         0 => {
             let c = pick_cut(rng);
             out.truncate(c);
